@@ -72,4 +72,11 @@ func init() {
 		_ = fs.Parse(args)
 		return graphfam.RunGraphFiles(fs.Args(), *out)
 	}
+	commands["ge-alltypes"] = func(args []string) error {
+		fs := flag.NewFlagSet("ge-alltypes", flag.ExitOnError)
+		out := fs.String("out", "", "trace ndjson")
+		chunk := fs.Int("chunk", 12, "nodes per application")
+		_ = fs.Parse(args)
+		return graphfam.RunAllTypes(*out, *chunk)
+	}
 }
